@@ -5,13 +5,15 @@ import (
 	"encoding/hex"
 	"fmt"
 	"net"
+	"os"
 	"sort"
-	"sync"
 	"testing/synctest"
 	"time"
 
 	"verif.local/simrt"
 )
+
+var debugWire = os.Getenv("VERIF_DEBUG_WIRE") != ""
 
 // Violation is one failed assertion.
 type Violation struct {
@@ -36,7 +38,7 @@ type Env struct {
 	Rng  *simrt.Rand // harness choices that are not part of the plan (delivery delays)
 	Seed uint64
 
-	mu         sync.Mutex // real
+	mu         simrt.InternalLock // a real mutex; in the race build a lock the detector cannot see
 	writes     []writeRec
 	traceLines []string
 	Violations []Violation
@@ -103,6 +105,9 @@ func (e *Env) Violate(prop, assertion, format string, args ...any) {
 
 func (e *Env) recordWrite(c *Conn, seq int, data []byte) {
 	now := e.Sim.Now()
+	if debugWire {
+		fmt.Fprintf(os.Stderr, "WIRE %012d %s %d %x\n", int64(now), c.name, seq, data)
+	}
 	e.mu.Lock()
 	e.writes = append(e.writes, writeRec{at: now, conn: c.name, seq: seq, hash: shortHash(data), n: len(data)})
 	e.mu.Unlock()
